@@ -143,6 +143,10 @@ func getEnv() (*c01Env, error) {
 		mk("direct-rl", ProxyOpts{DenyDomains: deny, ReadLimit: 1 << 30, WriteLimit: 1 << 30})
 		mk("upstream-rl", ProxyOpts{Upstream: "http://" + e.upstream.Addr, DenyDomains: deny, ReadLimit: 1 << 30, WriteLimit: 1 << 30})
 		mk("mitm-rl", ProxyOpts{MITM: true, DenyDomains: deny, ReadLimit: 1 << 30, WriteLimit: 1 << 30})
+		// response-header rules that add a value to fields the origin may send itself, and one it never sends
+		mk("direct-rules", ProxyOpts{DenyDomains: deny, ResponseHeaders: c02Rules})
+		mk("upstream-rules", ProxyOpts{Upstream: "http://" + e.upstream.Addr, DenyDomains: deny, ResponseHeaders: c02Rules})
+		mk("mitm-rules", ProxyOpts{MITM: true, DenyDomains: deny, ResponseHeaders: c02Rules})
 		mk("mitm-pac", ProxyOpts{MITM: true, DenyDomains: deny, PAC: `function FindProxyForURL(url, host) { if (url.substring(0, 6) == "https:") return "DIRECT"; return "PROXY 127.0.0.1:1"; }`})
 		env = e
 	})
@@ -213,7 +217,9 @@ func genC01(t *rapid.T) C01Case {
 				toks = append(toks, "close")
 			}
 			if len(toks) > 0 {
-				r.Fields = append(r.Fields, Field{"Connection", strings.Join(toks, ", ")})
+				// list elements are separated by a comma with optional whitespace around it (RFC 9110 5.6.1)
+				sep := rapid.SampledFrom([]string{", ", ", ", ",", " ,", ",  ", " , ", ",\t"}).Draw(t, "connsep")
+				r.Fields = append(r.Fields, Field{"Connection", strings.Join(toks, sep)})
 			}
 		}
 		for _, h := range []Field{{"Keep-Alive", "timeout=5"}, {"Proxy-Connection", "keep-alive"}, {"TE", "trailers"}, {"Upgrade", "foo/2"}, {"Proxy-Authenticate", "Basic realm=x"}, {"Proxy-Authorization", "Basic Zm9vOmJhcg=="}} {
